@@ -235,8 +235,47 @@ def _run_case(item):
     return PROBES[item[0]](item[1])
 
 
+def corr_rho(ctx: Ctx, drv):
+    """custom autograd Functions additive_term_rho1/2 of the LIVE code: forward root and backward formulas vs the compiled model
+    (`*_backward_true` = the formulas proved equal to the implicit derivative; the pre-repair reciprocal form is `*_backward_code`)"""
+    import torch
+
+    from seqm.seqm_functions.cal_par import additive_term_rho1, additive_term_rho2
+    from seqm.seqm_functions.constants import ev
+
+    rng = ctx.rng
+    for it in range(40 if ctx.thorough else 14):
+        for fn, name in ((additive_term_rho1, "rho1"), (additive_term_rho2, "rho2")):
+            h = float(rng.uniform(1.0, 6.0)) / (4.0 if name == "rho2" else 1.0)
+            D = float(rng.uniform(0.3, 1.6))
+            g = float(rng.normal())
+            ht = torch.tensor([h], requires_grad=True)
+            Dt = torch.tensor([D], requires_grad=True)
+            rho = fn.apply(ht, Dt)
+            gh, gD = torch.autograd.grad(rho, (ht, Dt), grad_outputs=torch.tensor([g]))
+            out = drv.ask(name + "_backward_true", f2b(float(rho)), f2b(D), f2b(g), f2b(float(ev)))
+            ok = len(out) == 2 and abs(b2f(out[0]) - float(gh)) <= 1e-12 * abs(float(gh)) and abs(b2f(out[1]) - float(gD)) <= 1e-12 * abs(float(gD))
+            ctx.corr_case(f"additive_term_{name}.backward", {"h_ev": h, "D": D, "g": g}, [b2f(o) for o in out] if len(out) == 2 else out, [float(gh), float(gD)], ok)
+            fw = drv.ask(name + "_forward", f2b(h), f2b(D), f2b(float(ev)))
+            okf = len(fw) == 1 and fw[0] != "bad-op" and abs(b2f(fw[0]) - float(rho)) <= 4e-15 * abs(float(rho))
+            ctx.corr_case(f"additive_term_{name}.forward", {"h_ev": h, "D": D}, fw, float(rho), okf)
+            # the returned root satisfies its defining equation (5 secant steps: residual <= 1e-8 relative)
+            rs = drv.ask(name + "_residual", f2b(float(rho)), f2b(D), f2b(float(ev)))
+            okr = len(rs) == 1 and rs[0] != "bad-op" and abs(b2f(rs[0]) - h) <= 1e-7 * abs(h)
+            ctx.corr_case(f"additive_term_{name} root residual", {"h_ev": h, "D": D, "residual": True}, [b2f(rs[0]) - h] if okr or len(rs) == 1 and rs[0] != "bad-op" else rs, 0.0, okr)
+
+
 def run(ctx: Ctx):
     leanproj.check_theorems(ctx, MODULE, THEOREMS)
+    drv = leanproj.Driver()
+    try:
+        try:
+            corr_rho(ctx, drv)
+        except Exception:
+            import traceback
+            ctx.obligation("correspondence adapters C07 ran", False, traceback.format_exc()[-1500:], kind="harness")
+    finally:
+        drv.close()
     cases = gen_cases(ctx)
     results = mdh.pmap(_run_case, cases, timeout=2400)
     for (name, c), r in zip(cases, results):
